@@ -116,8 +116,11 @@ def distribution(cases):
          "mapped_reports": 0,
          # rows of the A/L section the spec verdict evaluated / left out (see drv_c03.ml):
          "rows_checked_plain": 0, "rows_checked_aggregated_or_moved": 0, "cases_with_aggregated_rows_checked": 0,
-         "rows_not_printed_checked_as_zero": 0, "rows_skipped_ambiguous_name": 0, "rows_skipped_no_source": 0,
-         "rows_skipped_source_not_AL": 0, "expectations_undefined": 0, "reports_rows_located_by_path": 0}
+         "rows_not_printed_checked_as_zero": 0, "rows_skipped_ambiguous_name": 0, "rows_without_source": 0,
+         "rows_skipped_source_not_AL": 0, "expectations_undefined": 0, "reports_rows_located_by_path": 0,
+         # reports restricted by --account / --commodity (Spec.ValuationWhereSpec):
+         "with_commodity_filter": 0, "with_account_filter": 0, "filtered_reports": 0,
+         "rows_checked_on_filtered_reports": 0, "rows_without_passing_account_checked_empty": 0}
     for c in cases:
         ok = c.observed.startswith("OK")
         d["ok" if ok else "err"] += 1
@@ -128,14 +131,19 @@ def distribution(cases):
         d["with_mapping"] += cfg["map"] != "-"
         d["with_remap"] += cfg["remap"] != "-"
         d["mapped_reports"] += ok and (cfg["map"] != "-" or cfg["remap"] != "-")
+        d["with_commodity_filter"] += cfg["com"] != "-"
+        d["with_account_filter"] += cfg["acc"] != "-"
+        d["filtered_reports"] += ok and (cfg["com"] != "-" or cfg["acc"] != "-")
         k = _counts(c)
         d["rows_checked_plain"] += k.get("plain", 0)
         d["rows_checked_aggregated_or_moved"] += k.get("mapped", 0)
         d["cases_with_aggregated_rows_checked"] += k.get("mapped", 0) > 0
         d["rows_not_printed_checked_as_zero"] += k.get("absent", 0)
         d["rows_skipped_ambiguous_name"] += k.get("ambiguous", 0)
-        d["rows_skipped_no_source"] += k.get("nosrc", 0)
+        d["rows_without_source"] += k.get("nosrc", 0)
         d["rows_skipped_source_not_AL"] += k.get("nonal", 0)
         d["expectations_undefined"] += k.get("undefined", 0)
         d["reports_rows_located_by_path"] += k.get("bypath", 0)
+        d["rows_checked_on_filtered_reports"] += k.get("filtered", 0)
+        d["rows_without_passing_account_checked_empty"] += k.get("zero", 0)
     return d
